@@ -498,10 +498,8 @@ package ctfe
 //@ uf certEqual(a Ref, b Ref) bool
 // certEqual(a, b): (*x509.Certificate).Equal, i.e. byte equality of the two certificates' DER.
 
-//@ func (*github.com/google/certificate-transparency-go/x509.Certificate).Equal
-//@ assumed
-//@ pure
-//@ ensures result == certEqual(c, other)
+// (the contract of Equal itself is in x509/contracts_verif.go: its body is verified to return the
+// verdict of bytes.Equal on the two complete DER encodings, which certEqual names for callers)
 
 //@ uf isPoison(j int) bool
 // isPoison(j): "extension j of the certificate has the CT poison OID", the result of
@@ -529,6 +527,7 @@ package ctfe
 //@ arith int
 //@ pure
 //@ requires forall j int :: 0 <= j && j < len(inChain) ==> inChain[j] != nil
+//@ requires forall j int :: 0 <= j && j < len(verifiedChain) ==> verifiedChain[j] != nil
 //@ loop 1 invariant forall j int :: 0 <= j && j <= rangeindex ==> certEqual(inChain[j], verifiedChain[j])
 //@ ensures [same-certificates-in-submitted-order] result <==> ((len(inChain) == len(verifiedChain) || len(inChain) == len(verifiedChain) - 1) && (forall j int :: 0 <= j && j < len(inChain) ==> certEqual(inChain[j], verifiedChain[j])))
 
